@@ -4,6 +4,7 @@ import (
 	"fmt"
 	"go/ast"
 	"go/constant"
+	"go/token"
 	_ "go/token"
 	"go/types"
 	"sort"
@@ -200,6 +201,43 @@ func runC04(p *core.Prog, r *core.Report) {
 	if find == nil || parse == nil {
 		r.Fail("ANCHOR", "httpd roles", "-", fmt.Sprintf("route lookup=%v registration=%v", find != nil, parse != nil))
 		return
+	}
+	// what is walked is the request's decoded path and its method: literals are registered in decoded form and the
+	// captured values are handed to handlers as they are
+	{
+		sv := p.Inl(serveSrc, find)
+		n := 0
+		var bad []string
+		sx.Instrs(sv, func(in ssa.Instruction) {
+			c, ok := in.(*ssa.Call)
+			if !ok || !sameFn(sx.StaticCallee(c), find) {
+				return
+			}
+			n++
+			sawPath := false
+			for _, a := range c.Call.Args {
+				if !isStringT(a.Type()) {
+					continue
+				}
+				org := map[string]bool{}
+				for o := range sx.Origins(a) {
+					if !strings.HasPrefix(o, "const") { // a default for the empty path / method is harmless
+						org[o] = true
+					}
+				}
+				switch {
+				case len(org) == 1 && org["field:URL.Path"]:
+					sawPath = true
+				case len(org) == 1 && org["field:Request.Method"]:
+				default:
+					bad = append(bad, "argument "+short(sx.ValPath(a))+" of the route lookup at "+p.Pos(c.Pos())+" derives from "+keys(org))
+				}
+			}
+			if !sawPath {
+				bad = append(bad, "the route lookup at "+p.Pos(c.Pos())+" is not given r.URL.Path")
+			}
+		})
+		r.Check(len(bad) == 0 && n > 0, "C04-R5", "the lookup walks the request's decoded path and method", p.FuncPos(serveSrc), "findRoute(root, r.URL.Path, r.Method, params)", strings.Join(bad, "; ")+": literals would be compared with, and :name/* bound to, a text other than the decoded path (an escaped or rewritten form)")
 	}
 	// the method lookup: the function reachable from the route lookup that indexes the trie with a method tag
 	var findSet []*ssa.Function // the route lookup and its tail helpers (module callees that also return the route)
@@ -758,6 +796,7 @@ func runC04(p *core.Prog, r *core.Report) {
 		r.Check(okR && nR == 2, "C04-R5", "lookup: one captured value per :param/* transition", p.FuncPos(find), "each parameter hit appends exactly one value; nothing else writes the value list", whyR)
 		// successful returns assign K from the matched node
 		okK, nK := true, 0
+		whyK := "a successful return does not assign Params.K from the matched node: names and values would not correspond"
 		for _, f := range findSet {
 			for _, ret := range sx.Returns(f) {
 				for _, rc := range retCases(ret, 0) {
@@ -781,20 +820,54 @@ func runC04(p *core.Prog, r *core.Report) {
 					if len(cut.Instrs) == 0 || !sx.MustPass(f, nil, ret, cut) {
 						okK = false
 					}
+					// …from the very node whose route is returned (names are per path *and* method: two methods on one path
+					// may name their parameters differently)
+					if ld, ok := sx.Unspill(rv).(*ssa.UnOp); ok && ld.Op == token.MUL {
+						if fa, ok := ld.X.(*ssa.FieldAddr); ok {
+							for st := range cut.Instrs {
+								src, ok := sx.Unspill(st.(*ssa.Store).Val).(*ssa.UnOp)
+								if !ok {
+									continue
+								}
+								if fa2, ok := src.X.(*ssa.FieldAddr); ok && sx.Unspill(fa2.X) != sx.Unspill(fa.X) && sx.ReachInstr(f, st, ret, sx.Cut{}) {
+									okK = false
+									whyK = "the names installed at " + p.Pos(st.Pos()) + " are read from " + sx.ValPath(fa2.X) + " but the route returned at " + p.Pos(ret.Pos()) + " belongs to " + sx.ValPath(fa.X) + ": a route registered later on the same path with another method overwrites the names this route's handler sees"
+								}
+							}
+						}
+					}
 				}
 			}
 		}
-		r.Check(okK && nK > 0, "C04-R5", "lookup: every successful return installs the matched route's parameter names", p.FuncPos(find), fmt.Sprintf("%d successful returns, each after Params.K = node.paramNameList", nK), "a successful return does not assign Params.K from the matched node: names and values would not correspond")
+		r.Check(okK && nK > 0, "C04-R5", "lookup: every successful return installs the matched route's parameter names", p.FuncPos(find), fmt.Sprintf("%d successful returns, each after Params.K = node.paramNameList of the returned route's node", nK), whyK)
 		// registration stores the list on the method node
 		okS := false
+		whyS := "the registration never stores the parameter name list"
+		var nameBases, infoBases []ssa.Value
 		sx.Instrs(parse, func(in ssa.Instruction) {
 			if st, ok := in.(*ssa.Store); ok {
-				if fa, ok := st.Addr.(*ssa.FieldAddr); ok && sx.FieldOf(fa) == nameListF {
-					okS = true
+				if fa, ok := st.Addr.(*ssa.FieldAddr); ok {
+					if sx.FieldOf(fa) == nameListF {
+						okS = true
+						nameBases = append(nameBases, sx.Unspill(fa.X))
+					} else if pt := ptrTo(fa.Type()); pt != nil && typeIs(pt, "httpd", "RouteInfo") || (pt != nil && ptrTo(pt) != nil && typeIs(ptrTo(pt), "httpd", "RouteInfo")) {
+						infoBases = append(infoBases, sx.Unspill(fa.X))
+					}
 				}
 			}
 		})
-		r.Check(okS, "C04-R5", "registration stores the name list on the route's node", p.FuncPos(parse), "node.paramNameList assigned", "the registration never stores the parameter name list")
+		for _, nb := range nameBases {
+			same := len(infoBases) == 0
+			for _, ib := range infoBases {
+				if ib == nb {
+					same = true
+				}
+			}
+			if !same {
+				okS, whyS = false, "the registration stores the parameter names on "+sx.ValPath(nb)+" but the route on "+sx.ValPath(infoBases[0])+": names are shared by every method registered on the path"
+			}
+		}
+		r.Check(okS, "C04-R5", "registration stores the name list on the route's node", p.FuncPos(parse), "paramNameList and the route are assigned on the same node", whyS)
 	}
 }
 
